@@ -273,3 +273,23 @@ package board
 //@   props C02
 //@   hyp validPos(p) && pseudo(p, m)
 //@   concl ep(succ(p, m)) == ite(isDouble(p, m) && existsLegalEP(p, m), midSq(m), 0) && implies(isDouble(p, m), mvPromo(m) == 0)
+//@
+//@ # the undo token: every field read back is the value stored, in MakeMove's order of the setters
+//@ scenario tokenRoundTrip(r *Reverse, fc Depth, cc Castles, ep Square, cp Piece)
+//@   props C03
+//@   requires *r == 0 && 0 <= fc && cc < 16 && 0 <= ep && ep < 64 && cp <= 6
+//@   do inline r.setFiftyCnt(fc)
+//@   do inline r.setCastlingChange(cc)
+//@   do inline r.setCapture(cp)
+//@   do inline r.setEnPassantChange(ep)
+//@   ensures [fields] r.fiftyCnt() == fc && r.castlingChange() == cc && r.capture() == cp && r.enPassantChange() == ep
+//@
+//@ # ---- the legality filter used by perft and the search: make the move, test the mover's king
+//@ scenario legalityFilter(b *Board, m move.Move)
+//@   props C01 C06
+//@   ghost p0 = pos(b)
+//@   requires repOK(b) && validPos(pos(b)) && pseudo(pos(b), uint16(m)) && hashOK(b) && 0 <= b.FiftyCnt
+//@   use movableFromPseudo(pos(b), uint16(m))
+//@   do r := b.MakeMove(m)
+//@   ensures [filter] b.InCheck(old(b.STM)) == !kingSafeAfter(p0, uint16(m))
+//@   ensures [legal]  legal(p0, uint16(m)) == !b.InCheck(old(b.STM))
